@@ -90,6 +90,9 @@ type Token struct {
 	Tp   TokenType
 	Data string
 	Pos  int
+	// Unclosed is set for a quoted literal or name that runs to the end of
+	// the query without its closing quote
+	Unclosed bool
 }
 
 func (t *Token) String() string {
@@ -380,9 +383,10 @@ func (l *Lexer) Split() []*Token {
 		// of re-reading it as a word positioned at the quote
 		curr = l.Query[tokStart : tokStart+min(tokLen, l.Length-tokStart)]
 		token := &Token{
-			Tp:   STRING,
-			Data: curr,
-			Pos:  tokStartPos,
+			Tp:       STRING,
+			Data:     curr,
+			Pos:      tokStartPos,
+			Unclosed: true,
 		}
 		if strStartChar == '`' {
 			token.Tp = NAME
